@@ -32,6 +32,10 @@ def run(res, replay=None):
         for i in range(ncase):
             s = gen.rand_spec(rng, n_total=rng.choice([2, 3, 3, 4] if res.tier == 'quick' else [3, 4, 4, 5]),
                               n_demes=rng.choice([1, 1, 2]), n_epochs=1, end_time='never')
+            if s['model']['kind'] == 'beta' and (len(s['n_items']) > 1 or gen.effective_n(s) > 3):
+                # the scaled Beta time scale is a 53-bit rational: the exact-rational inverse of the model then takes minutes on
+                # the larger block-counting spaces (the time scale itself is the subject of C14, not of this property)
+                s['model']['scale_time'] = False
             cases.append({'spec': s, 'theta': rng.choice([0.0, 0.0625, 0.25, 1.0, 2.0]),
                           'max_mut': 3 if res.tier == 'quick' else 4})
     if not replay:
